@@ -477,7 +477,9 @@ fn corr_full(tracelog: u8, cr: u32) {
                 for g in 0..=32u32 {
                     for q in 1..=255usize {
                         let p = P::new(q, b, g, deg);
-                        proof.context = ctx_for(f, tracelog, &p).expect("context");
+                        // the readers refuse an LDE domain above u32::MAX (fix 7d87ad7 ff.): such a context cannot exist
+                        let Ok(c) = ctx_for(f, tracelog, &p) else { continue };
+                        proof.context = c;
                         let r = level(&proof, true, cr);
                         out.push_str(&format!("conj {} {} {} {} {} {} {} => {}\n", mh, tracelog, q, b, g, deg, cr, show_level(&r)));
                     }
